@@ -4,6 +4,14 @@ NOTES = ("Model-based verification with explicit TLA+ specifications (spec/), TL
 NOT_APPLICABLE = {}
 
 CHECKS = {
+ "C01": {
+  "bins": ["conn"], "tokio_bins": ["conn"], "specs": ["conn"],
+  "level": "model_checking",
+  "technique": "TLA+ model of the per-connection loop (HttpConn) checked by TLC over all scripts x all segmentations incl. liveness; TLC-generated scripts and send sequences replayed over loopback on both runtimes; every recorded client log trace-validated by TLC",
+  "text": "TLC explores the connection machine (first byte, buffered head/body reads with read-ahead, dispatch, write, next-or-close, timeout, panic) against the declarative Expected(script) for all scripts <=2 (thorough <=3) over the loop-relevant catalogue and the method x target x Connection x version product, every split/coalescing of the byte stream, with safety and liveness; each real connection (threaded and tokio App on loopback, segmentations chosen by TLC simulation plus byte-exact extremes) is logged at the client and accepted only if TLC finds a behaviour of the spec that explains the whole log.",
+  "note": "Trusts: Expected(script) as the reading of the property (400/408 checked for status+close only); the harness reference HTTP response parser; loopback timing assumptions (3 s silence = hang). Open deviations CrlfAfterBody and ReadAheadLost are attributed only when Dev={d} explains the log exactly.",
+  "ref": "DESIGN.md section 5 C01",
+ },
  "C05": {
   "bins": ["glob"], "specs": ["glob"],
   "level": "model_checking",
